@@ -248,3 +248,146 @@ def unreadable_input_system(ctx):
                           f"(events {ev}, build return code {res.get('rc1')})", {"system": res}))
     ctx.stats["replace_system_keep_going"] = out
     return fails
+
+
+from .p_c03_sigs import SIG_AMENDED_RECORD  # noqa: E402
+
+
+async def _amended_record_scenario():
+    """Two real serve() runs on one .stepup/graph.db.
+
+    plan.py declares the static files c_src.txt, f.txt, g_src.txt and the steps g (inp g_src.txt, out
+    g.txt), d (inp f.txt, g.txt) and c (inp c_src.txt, out o.txt).  c amends f.txt (accepted: the
+    file is CONFIRMED) and reads it.  While c still runs the user edits f.txt (inside the command of g,
+    ordered by an event); d is dispatched, its pre-run check finds f.txt modified, records the NEW
+    hash, d FAILS and the scheduler drains.  c finishes: the post-run check compares f.txt with the
+    hash recorded now.  Build 2: nothing was touched in between.
+    """
+    import stepup.core.director as di
+    import stepup.core.executor as ex
+    from stepup.core.constants import GRAPH_DB
+    from stepup.core.director import ServeConfig, serve
+    from stepup.core.enums import Need
+    from stepup.core.outcome import ChildOutcome
+    from stepup.core.reporter import ReporterClient
+    from stepup.core.rpc import BaseAsyncRPCClient
+    from stepup.core.sqlite3 import DBSession
+
+    events, handler, gates, log = [], {}, {}, {}
+
+    class Rec(BaseAsyncRPCClient):
+        async def __call__(self, name, /, *args, **kwargs):
+            if name == "report" and args and args[0] in ("START", "SUCCESS", "FAIL", "DEFERRED", "SKIP", "ERROR"):
+                events.append([args[0], str(args[1])])
+            return None
+
+    orig_wire = di._wire_director
+
+    async def wire(**kw):
+        h = await orig_wire(**kw)
+        handler["h"] = h
+        return h
+
+    D = Need.DEFAULT.value
+
+    async def state_of(label):
+        h = handler["h"]
+        async with h.db:
+            row = h.db.execute("SELECT state FROM step JOIN node ON node.i = step.node WHERE node.label = ?",
+                               (label,)).fetchone()
+        return row and row[0]
+
+    async def fake_launch(command, *, shell, env, cwd, mp_ctx, run):
+        h = handler["h"]
+        j = run.job_i
+        if command == "./plan.py":
+            await h.declare_static(j, [], ["c_src.txt", "f.txt", "g_src.txt"], [])
+            await h.define_step(j, "g", ["g_src.txt"], [], ["g.txt"], [], ".", D, {})
+            await h.define_step(j, "d", ["f.txt", "g.txt"], [], ["d.txt"], [], ".", D, {})
+            await h.define_step(j, "c", ["c_src.txt"], [], ["o.txt"], [], ".", D, {})
+        elif command == "g":
+            await gates["c_read"].wait()
+            Path("f.txt").write_text("f version 2 (edited by the user during the build)")
+            Path("g.txt").write_text("g")
+        elif command == "d":
+            Path("d.txt").write_text("d:" + Path("f.txt").read_text())
+        elif command == "c":
+            carry = await h.amend_step(j, ["f.txt"], set(), [], [])
+            log["carry_on"] = bool(carry)
+            first = "c_read" not in log
+            read = Path("f.txt").read_text()
+            log.setdefault("c_read", read)
+            log["c_runs"] = log.get("c_runs", 0) + 1
+            gates["c_read"].set()
+            while first and await state_of("d") != S_FAILED:   # event driven: d's pre-run check has been recorded
+                await asyncio.sleep(0)
+            Path("o.txt").write_text("o:" + read)
+        return ChildOutcome(0, "", "")
+
+    old_cwd = os.getcwd()
+    old_launch = ex.launch_command
+    out = {}
+    with tempfile.TemporaryDirectory(prefix="verif-c03amrec-") as d:
+        try:
+            os.chdir(d)
+            ex.launch_command = fake_launch
+            di._wire_director = wire
+            gates["c_read"] = asyncio.Event()
+            Path("plan.py").write_text("#!/usr/bin/env python3\n")
+            os.chmod("plan.py", 0o755)
+            Path("f.txt").write_text("f version 1")
+            os.utime("f.txt", ns=(1_600_000_000 * 10**9, 1_600_000_000 * 10**9))
+            Path("c_src.txt").write_text("c")
+            Path("g_src.txt").write_text("g")
+            Path(".stepup").makedirs_p()
+            for b in (1, 2):
+                events.append(["BUILD", str(b)])
+                try:
+                    with DBSession.open(GRAPH_DB) as db:
+                        res = await asyncio.wait_for(
+                            serve(ServeConfig(njob=4, use_duration=False), director_socket_path=Path(".stepup/sock"),
+                                  reporter=ReporterClient(Rec()), db=db, handle_signals=False), 60)
+                    out[f"rc{b}"] = res.returncode.value
+                except BaseException as e:  # noqa: BLE001
+                    out[f"rc{b}"] = f"EXC {type(e).__name__}: {e}"
+                con = sqlite3.connect(".stepup/graph.db")
+                out[f"states{b}"] = dict(con.execute("SELECT label, state FROM node JOIN step ON node.i = step.node").fetchall())
+                con.close()
+                out[f"f{b}"] = Path("f.txt").read_text()
+                out[f"o{b}"] = Path("o.txt").read_text() if Path("o.txt").exists() else None
+        finally:
+            ex.launch_command = old_launch
+            di._wire_director = orig_wire
+            os.chdir(old_cwd)
+    out["events"] = events
+    out.update(log)
+    return out
+
+
+def amended_record_system(ctx):
+    """Finding C03-amended-record through the real serve().  Returns (signature, detail, witness) list."""
+    try:
+        res = asyncio.run(asyncio.wait_for(_amended_record_scenario(), 150))
+    except asyncio.TimeoutError:
+        ctx.notes.append("c03_repl: amended-record scenario timed out (the interleaving did not occur)")
+        return []
+    ctx.case(("amended-record-system",), nontrivial=True)
+    ctx.sample({"amended-record-system": res})
+    ev = res["events"]
+    b2 = ev[ev.index(["BUILD", "2"]):] if ["BUILD", "2"] in ev else []
+    shape = res.get("carry_on") is True and ["FAIL", "d"] in ev and res.get("c_read") != res.get("f1") \
+        and isinstance(res.get("rc2"), int)
+    stale1 = res.get("states1", {}).get("c") == S_SUCCEEDED and res.get("o1") == "o:" + str(res.get("c_read"))
+    stale2 = res.get("states2", {}).get("c") == S_SUCCEEDED and res.get("o2") == res.get("o1") and ["START", "c"] not in b2
+    ctx.stats["amended_record_system"] = {"shape": bool(shape), "succeeded_on_old_content": bool(stale1),
+                                          "never_rebuilt": bool(stale2), "rc": [res.get("rc1"), res.get("rc2")],
+                                          "c_runs": res.get("c_runs"), "o_final": res.get("o2")}
+    if not shape:
+        return [("oracle:amended-record:witness-shape", f"the scenario did not play out as intended: {res}", {"system": res})]
+    if stale1:
+        return [(SIG_AMENDED_RECORD,
+                 f"real serve(): c amended the static file f.txt (accepted) and read {res.get('c_read')!r}; while c was running "
+                 f"the file was edited and the pre-run check of step d recorded the new hash (d FAILED, scheduler drained); c "
+                 f"then ended SUCCEEDED with o.txt = {res.get('o1')!r} although f.txt = {res.get('f1')!r}; the next build "
+                 f"{'does not run c again (o.txt stays stale)' if stale2 else 'runs c again'}: events {ev}", {"system": res})]
+    return []
